@@ -60,9 +60,43 @@ def cls_of(sc):
     return sc.get("kind", "seq") + ":" + sc.get("tag", "")[:30]
 
 
+def announce_extra(ctx, sc, r):
+    """success fires on_reconnect (on_open if none was given): the first callback of every RE-established connection."""
+    mask = sc.get("cbs", appsim.ALL)
+    has = lambda name: bool((mask >> CBS.index(name)) & 1)   # noqa: E731
+    want = "cb:on_reconnect" if has("on_reconnect") else ("cb:on_open" if has("on_open") else None)
+    items = [it.partition(":")[2] for it in (r["trace"].split(";") if r["trace"] else [])]
+    if any(it.startswith("cb:DECOY") for it in items):
+        ctx.violate("retry", "stale-callback-fired@callbacks-replaced-after-construction", sc, "the callbacks set at the time of the event",
+                    r["trace"][-300:], size=appcheck.size_of(sc))
+        return
+    dial_no = -1
+    i = 0
+    while i < len(items):
+        if items[i].startswith("dial:"):
+            dial_no += 1
+            j = i + 1
+            seg = []
+            while j < len(items) and not items[j].startswith(("dial:", "ret:", "raised:")):
+                seg.append(items[j])
+                j += 1
+            cbs = [x for x in seg if x.startswith("cb:")]
+            delivered = any(x.startswith(("cb:on_data", "cb:on_message", "cb:on_ping", "cb:on_pong")) for x in cbs)
+            if dial_no > 0 and delivered and want and not cbs[0].startswith(want):
+                ctx.violate("retry", "re-established-connection-not-announced", sc, f"{want[3:]} first on connection #{dial_no}",
+                            f"first callback {cbs[0]}; trace …{r['trace'][-300:]}", size=appcheck.size_of(sc))
+                return
+            i = j
+        else:
+            if items[i].startswith(("ret:", "raised:")):
+                dial_no = -1            # the next run_forever call starts with a FIRST connection again
+            i += 1
+
+
 def extra(ctx, sc, r):
     n = appcheck.size_of(sc)
     halfdead_extra(ctx, sc, r)
+    announce_extra(ctx, sc, r)
     if r["live_max"] > 1:
         ctx.violate("resources", appcheck.qualify("two-transports-open", sc), sc, "at most one live transport", f"max live = {r['live_max']}", size=n)
     for i, al in enumerate(r["alive"]):
@@ -122,6 +156,13 @@ def scenarios(ctx):
         sc = scenario(seq, TPS, "close", ka=True)
         sc["kind"] = "special"
         scs.append(sc)
+    # the same object run a SECOND time with reconnection on: a server close must end that run too
+    for seq1, seq2 in ((("Ee",), ("Ee",)), ((), ("Er", "Ee")), (("R",), ("Ee", "Ee")), ((), ())):
+        sc = scenario(seq1, TPS, "close")
+        sc2 = scenario(seq2, TPS, "close")
+        sc["runs"] = [sc["runs"][0], sc2["runs"][0]]
+        sc.update(kind="rerun", tag=sc["tag"] + "|then|" + sc2["tag"])
+        scs.append(sc)
     # steady inbound data without pongs: the ping timeout must still be noticed and followed by a new attempt (iv > 2*to)
     for seq in (("Et",), ("Et", "Ee"), ("Ee", "Et")):
         for ssl in (False, True):
@@ -152,6 +193,13 @@ def scenarios(ctx):
             sc["kind"] = "subset"
             scs.append(sc)
         scs.append(scenario(seq, TPS, "close", ssl=True))
+        # callbacks assigned / replaced after construction: which callback announces a re-established connection is
+        # decided when it happens, not when the object was built
+        for late in (True, "replace"):
+            for drop in (None, "on_reconnect"):
+                sc = scenario(seq, TPS, "close", cbs=appsim.ALL if drop is None else appsim.ALL & ~(1 << CBS.index(drop)))
+                sc.update(kind="late-callbacks", late_cbs=late)
+                scs.append(sc)
     # random
     n = 300 if ctx.thorough() else 80
     for _ in range(n):
